@@ -95,6 +95,9 @@ func (c *Ctx) addrEffect(e *effects, a ssa.Value) {
 			c.typeEffect(e, x.X.Type().Underlying().(*types.Pointer).Elem(), path)
 			return
 		case *ssa.IndexAddr:
+			if al, ok := x.X.(*ssa.Alloc); ok && al.Comment == "varargs" {
+				return // the array of a variadic call's arguments: private to that call
+			}
 			switch t := x.X.Type().Underlying().(type) {
 			case *types.Slice:
 				e.addMem(t.Elem())
@@ -533,4 +536,31 @@ func (c *Ctx) havocEffects(s *State, e *effects, reach string) {
 		}
 	}
 	c.bumpTop()
+}
+
+// loopAllocKeys: type keys of objects allocated inside the given blocks (other than variadic argument arrays).
+func loopAllocKeys(fn *ssa.Function, blocks map[int]bool) map[string]bool {
+	out := map[string]bool{}
+	for _, b := range fn.Blocks {
+		if blocks != nil && !blocks[b.Index] {
+			continue
+		}
+		for _, ins := range b.Instrs {
+			switch x := ins.(type) {
+			case *ssa.Alloc:
+				if !x.Heap || x.Comment == "varargs" {
+					continue
+				}
+				et := x.Type().(*types.Pointer).Elem()
+				if at, ok := et.Underlying().(*types.Array); ok {
+					out[typeKey(at.Elem())] = true
+				} else {
+					out[typeKey(et)] = true
+				}
+			case *ssa.MakeSlice:
+				out[typeKey(x.Type().Underlying().(*types.Slice).Elem())] = true
+			}
+		}
+	}
+	return out
 }
